@@ -19,6 +19,30 @@ theorem nonEmpty_filter_eq_any (l user : List String) :
     · simp only [List.contains_eq_mem] at ih
       simp [List.filter_cons, h, ih]
 
+theorem eval_eq_evalAbs (e : AccExpr) (required user : List String) :
+    e.eval required user =
+      e.evalAbs required.isEmpty user.isEmpty (!(required.filter (fun x => user.contains x)).isEmpty) := by
+  induction e with
+  | isEmpty s => cases s <;> simp [AccExpr.eval, AccExpr.evalAbs, SetExpr.eval, SetExpr.emptyAbs]
+  | nonEmpty s => cases s <;> simp [AccExpr.eval, AccExpr.evalAbs, SetExpr.eval, SetExpr.emptyAbs]
+  | const b => rfl
+  | or a b iha ihb => simp [AccExpr.eval, AccExpr.evalAbs, iha, ihb]
+  | and a b iha ihb => simp [AccExpr.eval, AccExpr.evalAbs, iha, ihb]
+  | not a iha => simp [AccExpr.eval, AccExpr.evalAbs, iha]
+  | unknown s => rfl
+
+/-- a non-empty intersection needs both sets non-empty -/
+theorem both_nonEmpty_consistent (required user : List String) :
+    (!(required.filter (fun x => user.contains x)).isEmpty) = true →
+      required.isEmpty = false ∧ user.isEmpty = false := by
+  intro h
+  cases required with
+  | nil => simp at h
+  | cons a rest =>
+    cases user with
+    | nil => simp at h
+    | cons b r => simp
+
 theorem hasAccess_nil (user : List String) : hasAccess [] user = true := by simp [hasAccess]
 
 theorem hasAccess_false_of_disjoint (required user : List String) (hne : required ≠ [])
